@@ -243,21 +243,36 @@ func (s *Store) Flush() error {
 	if s.file == nil {
 		return errors.New("no file / in-memory only, so cannot Flush()")
 	}
-	coll := *s.getColl()
+	var coll map[string]*Collection
+	var cnames []string
 	rnls := map[string]*rootNodeLoc{}
-	cnames := collNames(coll)
-	for _, name := range cnames {
-		if !utf8.ValidString(name) {
-			// The root record is JSON, which cannot carry such a name: it would be
-			// reloaded as a different name (U+FFFD for every offending byte), and
-			// collections whose names differ only in such bytes would be merged.
-			return fmt.Errorf("collection name %q is not valid UTF-8, so cannot Flush()", name)
+	for pinned := false; !pinned; {
+		coll = *s.getColl()
+		cnames = collNames(coll)
+		for _, name := range cnames {
+			if !utf8.ValidString(name) {
+				// The root record is JSON, which cannot carry such a name: it would be
+				// reloaded as a different name (U+FFFD for every offending byte), and
+				// collections whose names differ only in such bytes would be merged.
+				return fmt.Errorf("collection name %q is not valid UTF-8, so cannot Flush()", name)
+			}
 		}
-	}
-	for _, name := range cnames {
-		c := coll[name]
-		rnls[name] = c.rootAddRef()
-		verifYield(3)
+		pinned = true
+		for _, name := range cnames {
+			rnl := coll[name].rootAddRefIfOpen()
+			if rnl == nil {
+				// The mutator replaced or removed this collection after the map was
+				// read, which closed the handle: start over with the current map.
+				for n, r := range rnls {
+					coll[n].rootDecRef(r)
+					delete(rnls, n)
+				}
+				pinned = false
+				break
+			}
+			rnls[name] = rnl
+			verifYield(3)
+		}
 	}
 	defer func() {
 		for _, name := range cnames {
@@ -313,24 +328,41 @@ func (s *Store) FlushRevert() error {
 // snapshot has its mutations and Flush() operations disabled because
 // the original store "owns" writes to the StoreFile.
 func (s *Store) Snapshot() (snapshot *Store) {
-	coll := copyColl(*s.getColl())
-	res := &Store{
-		coll:      &coll,
-		file:      s.file,
-		size:      atomic.LoadInt64(&s.size),
-		readOnly:  true,
-		callbacks: s.callbacks,
-	}
-	for _, name := range collNames(coll) {
-		collOrig := coll[name]
-		coll[name] = &Collection{
-			store:    res,
-			compare:  collOrig.compare,
-			rootLock: collOrig.rootLock,
-			root:     collOrig.rootAddRef(),
+	for {
+		coll := copyColl(*s.getColl())
+		res := &Store{
+			coll:      &coll,
+			file:      s.file,
+			size:      atomic.LoadInt64(&s.size),
+			readOnly:  true,
+			callbacks: s.callbacks,
+		}
+		complete := true
+		for _, name := range collNames(coll) {
+			collOrig := coll[name]
+			root := collOrig.rootAddRefIfOpen()
+			if root == nil {
+				// The mutator replaced or removed this collection after the map was
+				// read, which closed the handle: start over with the current map.
+				complete = false
+				break
+			}
+			coll[name] = &Collection{
+				store:    res,
+				compare:  collOrig.compare,
+				rootLock: collOrig.rootLock,
+				root:     root,
+			}
+		}
+		if complete {
+			return res
+		}
+		for _, c := range coll {
+			if c.store == res {
+				c.closeCollection()
+			}
 		}
 	}
-	return res
 }
 
 // Close the store after use
